@@ -487,3 +487,125 @@ def install_cited(lib):
         lib.loop_spec("Traph.%s::for#2" % fn, LoopSpec(cc_links, havoc=havoc, world=("__done", "__ans", "__wit", "__read")))
     accs = [_item_acc("is_page", IS_PAGE), _item_acc("has_outlinks", HAS_L), _item_acc("outlinks", HEAD_L), _item_acc("has_inlinks", HAS_L), _item_acc("inlinks", HEAD_L)]
     return [LruNodeCallee(), RealmCallee(), DedupedCallee(), ScratchNode(), ScratchRead(), WindupByBlock(), ShouldYield(), CitedCiting("get_webentity_outlinks_iter"), CitedCiting("get_webentity_inlinks_iter")] + accs
+
+
+# ============================================================================ get_webentity_pages_iter / crawled variant (C05)
+ITEM_LRU = z3.Function("ITEM_LRU", INT, INT, BYTES)
+IS_CRAWLED = z3.Function("IS_CRAWLED", INT, INT, BOOL)
+NPG = z3.Function("N_LISTED_AMONG_FIRST_ITEMS", INT, INT, INT)
+CRAWLED_ONLY = z3.Bool("crawled_only_variant")
+
+
+def listed(i, j):
+    return z3.And(IS_PAGE(i, j), z3.Or(z3.Not(CRAWLED_ONLY), IS_CRAWLED(i, j)))
+
+
+def pages_axioms():
+    i, j = z3.Ints("i j")
+    return [z3.ForAll([i], N_ITEMS(i) >= 0), z3.ForAll([i], NPG(i, 0) == 0), z3.ForAll([i, j], z3.Implies(j >= 0, z3.And(NPG(i, j + 1) == NPG(i, j) + z3.If(listed(i, j), 1, 0), NPG(i, j) >= 0)))]
+
+
+class RealmCalleeLru(RealmCallee):
+    """the same traversal stub, yielding the item's LRU"""
+
+    def seq(self, ex, p, recv, args, kw, ln):
+        q, view = RealmCallee.seq(self, ex, p, recv, args, kw, ln)
+        i = q.w["__cur_i"]
+        node = view.elem(0)[0]
+        q.w["__n0"] = q.w["__listed"]
+        return q, SeqView(view.n, lambda j: (node, ITEM_LRU(i, j)), facts=view.facts)
+
+
+def pg_append(ex, p, o, v):
+    i, j = p.w["__cur_i"], p.w["__cur_j"]
+    rec = p.obj(v).f["items"] if isinstance(v, Ref) and p.obj(v).cls == "record" else None
+    ok = rec is not None and set(rec) == {"lru", "crawled"}
+    ex.oblige(p, "listed-page:is-a-record-of-lru-and-crawled", z3.BoolVal(bool(ok)), None, "post")
+    if ok:
+        ex.oblige(p, "listed-page:carries-the-lru-and-the-crawled-mark-of-the-item-in-hand", z3.And(to_z3(rec["lru"]) == ITEM_LRU(i, j), to_z3(ex.truth(rec["crawled"], p)) == IS_CRAWLED(i, j)), None, "post")
+    ex.oblige(p, "listed-page:is-a-page(crawled,in-the-crawled-variant)", listed(i, j), None, "post")
+    p.w["__listed"] = z3.simplify(p.w["__listed"] + 1)
+    o.f["len"] = o.f["len"] + 1
+
+
+def _cenv(p):
+    return p.w.get("__consumer_env", p.env)
+
+
+def pg_common(p):
+    ce = _cenv(p)
+    o = p.obj(ce["pages"])
+    n = z3.IntVal(len(o.f["items"])) if "items" in o.f else o.f["len"]
+    return [("answer-holds-the-pages-listed", n == p.w["__listed"])]
+
+
+def pg_outer(ex, p):
+    i = _idx(p, 0)
+    p.w["__outer"] = i
+    return pg_common(p) + [("one-lookup-per-prefix-handled", z3.And(i >= 0, p.w["__lookups"] == i))]
+
+
+def pg_inner(ex, p):
+    j = _idx(p, -1)
+    i = p.w["__cur_i"]
+    return pg_common(p) + [("traversal-is-the-current-prefix's", z3.And(i == p.w["__outer"], i >= 0, j >= 0)), ("no-page-of-this-prefix-skipped-or-repeated", p.w["__listed"] - p.w["__n0"] == NPG(i, j))]
+
+
+def pg_havoc(ex, p):
+    ce = dict(_cenv(p))
+    ce["pages"] = p.new_obj("list", {"len": fresh("n_pages", INT), "elem": lambda i: fresh("page", INT), "on_append": pg_append})
+    st = ce.get("state")
+    if isinstance(st, Ref):
+        p.obj(st).f["n_iterations"] = fresh("n_iterations", INT)
+    if "__consumer_env" in p.w:
+        p.w["__consumer_env"] = ce
+    else:
+        p.env.update(ce)
+
+
+class PagesOfWebentity(Contract):
+    """get_webentity_pages_iter / get_webentity_crawled_pages_iter over ANY realm
+    sequences: the answer lists exactly the page items (the crawled ones in the crawled
+    variant) of every prefix, in traversal order, each once, with its LRU and crawled
+    mark; the library's error iff a prefix is not stored."""
+
+    def __init__(self, name, crawled_only):
+        self.qual = "Traph." + name
+        self.co = crawled_only
+
+    def setups(self, ex):
+        p = Path()
+        for ax in axioms() + pages_axioms():
+            p.assume(ax)
+        p.assume(CRAWLED_ONLY == z3.BoolVal(self.co))
+        cc_world(p)
+        p.w["__listed"] = z3.IntVal(0)
+        p.w["__n0"] = z3.IntVal(0)
+        prefixes = p.new_obj("list", {"len": NPFX, "elem": lambda i: PFX(i)})
+        trie = p.new_obj("LRUTrie", {})
+        t = p.new_obj("Traph", {"lru_trie": trie, "encoding": "utf-8"})
+        yield p, t, [WEID, prefixes], {}, "any"
+
+    def on_yield(self, ex, p, v, ln, tag):
+        if isinstance(v, Ref) and p.obj(v).f.get("done") is True:
+            p.w["__final"] = p.obj(v).f.get("result")
+        return [(p, "normal", None)]
+
+    def check(self, ex, p0, res, tag):
+        for p1, kind, val in res:
+            if kind == "raise":
+                if val[0] != "TraphException":
+                    ex.oblige(p1, "raises-only-the-library's-error(%s)" % val[0], False, val[1])
+                    continue
+                ex.oblige(p1, "fails=>the-prefix-just-looked-up-is-not-stored", z3.Not(STORED(p1.w["__outer"])), val[1])
+                continue
+            ex.oblige(p1, "answers-with-the-list-gathered", z3.BoolVal(isinstance(p1.w["__final"], Ref) and p1.w["__final"] == p1.env.get("pages")), None)
+            ex.oblige(p1, "every-prefix-walked", p1.w["__lookups"] == NPFX, None)
+
+
+def install_pages(lib):
+    for fn in ("webentity_page_nodes_iter",):
+        lib.loop_spec("Traph.%s::for#0" % fn, LoopSpec(pg_outer, havoc=pg_havoc, world=("__lookups", "__listed", "__cur_i", "__n0")))
+        lib.loop_spec("Traph.%s::for#1" % fn, LoopSpec(pg_inner, havoc=pg_havoc, world=("__listed",)))
+    accs = [_item_acc("is_page", IS_PAGE), _item_acc("is_crawled", IS_CRAWLED)]
+    return [LruNodeCallee(), RealmCalleeLru(), ShouldYield(), PagesOfWebentity("get_webentity_pages_iter", False), PagesOfWebentity("get_webentity_crawled_pages_iter", True)] + accs
